@@ -162,28 +162,40 @@ OPS["match"] = op_match
 OPS["wmult"] = op_wmult
 
 
-def answer(line, timeout=10):
+_HANGS = [0]
+
+
+def answer(line, timeout=4):
+    if _HANGS[0] >= 3:
+        # circuit breaker: this worker has already seen 3 hangs (each one is reported); do not spend
+        # minutes re-confirming the same non-termination on thousands of inputs
+        return "SKIP after-hangs"
     f = line.split("\t")
     fn = OPS.get(f[0])
     if fn is None:
         return "SKIP unknown-op"
     old = signal.signal(signal.SIGALRM, _alarm)
-    signal.alarm(timeout)
+    # repeating timer: if the first Hang is swallowed by a broad `except` in the code under test,
+    # the next tick raises again
+    signal.setitimer(signal.ITIMER_REAL, timeout, 1.0)
     try:
         return fn(f)
     except Hang:
+        _HANGS[0] += 1
         return "HANG"
+    except MemoryError:
+        return "EXC MemoryError"
     except Exception as e:  # noqa
         return exc_cat(e)
     finally:
-        signal.alarm(0)
+        signal.setitimer(signal.ITIMER_REAL, 0)
         signal.signal(signal.SIGALRM, old)
 
 
 # more ops live in their own modules; importing them registers them
 def _load_ext():
     import importlib
-    for m in ("ops_opts", "ops_db", "ops_http", "ops_misc", "ops_imp"):
+    for m in ("ops_opts", "ops_db", "ops_wire", "ops_http", "ops_misc", "ops_imp"):
         try:
             importlib.import_module("harness." + m)
         except ModuleNotFoundError as e:
